@@ -108,8 +108,9 @@ func (r *Relay) relayOutput() {
 		case <-relayInterval.C:
 			err = r.sendPacket(buffer.Bytes())
 			if err != nil {
+				// Keep draining the channel: returning here would leave
+				// RelayLine blocked forever once the channel fills up.
 				r.logger.Error("Error sending UDP packet", "error", err)
-				return
 			}
 			// Clear out the buffer.
 			buffer.Reset()
@@ -119,7 +120,6 @@ func (r *Relay) relayOutput() {
 				err = r.sendPacket(buffer.Bytes())
 				if err != nil {
 					r.logger.Error("Error sending UDP packet", "error", err)
-					return
 				}
 				// Seed the new buffer with the new line.
 				buffer.Reset()
